@@ -32,6 +32,7 @@ PROFILE = {
     "n": (4, 10),
     "p_restart": 0.8,
     "p_revert": 0.15,
+    "p_driver_keep": 0.15,
     "p_proc2": 0.2,
     "stores": ("local", "local", "local+cache", "memory"),
 }
